@@ -9,7 +9,15 @@ CHECK = {
                  "heads and two random streams; in-circuit parser: Lean emitter of lookup / loaded table / region rows "
                  "and copy constraints compared cell by cell with the real synthesis, theorem layout-satisfiable <=> run; "
                  "base64: arithmetic decoding proved against RFC 4648 encoding, table and constants regenerated from "
-                 "the Rust sources by a translator",
+                 "the Rust sources by a translator; collections of 2-4 automata in ONE table (from_collection): "
+                 "Lean emitter of offsets / shared table / rows compared with the real synthesis, theorem "
+                 "layout-over-shared-table satisfiable <=> run of the chosen member, and the REAL loaded table "
+                 "explored as a nondeterministic automaton from every member's pinned start (any accepted word the "
+                 "member does not accept = failing input); Base64Chip wiring: lookup expression, loaded two-entry "
+                 "table and the enabled rows of every `Base64 chunk` region compared, theorem rows satisfiable <=> "
+                 "arithmetic decoder; ParserGadget (fetch_bytes, ascii_to_int, date_to_int): executable mirrors "
+                 "compared with MockProver verdict + value, specification theorems; serialization: inverse in both "
+                 "directions (canonical form)",
     "rule": "one `equiv` request per generated regular expression (real combinators, internal tree dumped by a "
             "hook, compiled Automaton dumped): the Lean checker decides language equality for ALL words; "
             "non-trivial when the automaton has >1 state; distinctness by hash of the request line. Expressions: "
@@ -23,7 +31,17 @@ CHECK = {
             "evidence. The corpus reports at most 8 language differences with their distinguishing word (the rest is "
             "counted). The correspondence is deliberately tight on: the internal tree of every combinator, the "
             "loaded lookup table (as a multiset, order-insensitive), every cell and copy constraint of the parsing "
-            "region, the serialization bytes",
+            "region, the serialization bytes, the offsets handed out by from_collection (a benign renumbering "
+            "such as handing out the offsets in another order changes the `coll-table` line: deliberate), the "
+            "structural text of the Base64 lookup input expressions (a re-association of q*(a0*256+a1)+(1-q)*default "
+            "changes the `b64-lookup` line: deliberate; the table is compared in load order). Collections: "
+            "`pctable` (offsets + whole table), `pctrace` (rows + pins per member and word), `pcparse` (verdict "
+            "+ markers) for every member of every collection on the pooled accepted words of ALL members "
+            "(cross words), forged witnesses starting in / jumping into another member's range. Base64: "
+            "`b64rows` for every sweep case that synthesises. Data types: `atoi` (every length 0..77, non-digit "
+            "neighbours 47/58 at first/middle/last position), `date` (4 formats, wrong/misplaced separators, wrong "
+            "lengths, corrupted digits), `fetch` (sequence lengths around the 31-byte chunk boundaries x window "
+            "lengths x first/last/straddling/out-of-range indices incl. 2^18)",
     "explanation": "Kernel-checked soundness of a certificate checker (bisimulation between the compiled automaton "
                    "and the Brzozowski-derivative automaton of the reference semantics); the checker is run on every "
                    "generated expression and on the shipped serialized automata. In-circuit parser: the lookup "
@@ -38,15 +56,38 @@ CHECK = {
                    "url substitutions and the sentinel letter are regenerated from the sources and re-proved equal to "
                    "the model's on every run; exhaustive length/padding/corruption sweeps under MockProver. "
                    "Serialization: round trip proved; every truncation of small automata and every value of the 16 "
-                   "scalar header bytes decoded by the real deserializer and by the model",
+                   "scalar header bytes decoded by the real deserializer and by the model; both length fields "
+                   "decreased AND increased (low byte, every higher byte incl. 2^63, all-ones) - errors or "
+                   "re-readings exactly as the model says, never a panic; `deserialize_canonical`: whatever the "
+                   "deserializer accepts is byte for byte the serialization of what it returns (so serialize is "
+                   "injective and prefix-free, every truncation is rejected, the length fields are binding). "
+                   "Several automata in one table: `from_collection_wf` (offsets 1, 1+n0, ... give disjoint ranges "
+                   "that avoid the dummy state 0, any number of closed automata), `collection_step_in_range` (a table "
+                   "row whose source lies in a member's range is that member's own transition and stays in the "
+                   "range), `parse_collection_iff_run` (the layout over the SHARED table, first state pinned to "
+                   "init_i + off_i, is satisfiable iff member i accepts with exactly these markers); the harness "
+                   "configures the real chip with collections of 2-4 automata (common-prefix languages, twins, a "
+                   "one-state member, random members, the shipped Jwt automaton with two small ones), parses every "
+                   "member, compares offsets/table/rows with the Lean emitter, forges witnesses in another member's "
+                   "range, and explores the real table from every member's start state against the member's own "
+                   "automaton (complete for the loaded table: a counterexample is a failing input). Base64Chip: the "
+                   "lookup input expressions, the 4096-row table and the enabled rows (characters after url "
+                   "translation / `=` substitution / ALT_PAD fill with their copy constraints, 12-bit values) are "
+                   "emitted by the model and compared; `base64_lookup_sound` + `base64_rows_sound` prove that these "
+                   "rows are satisfiable iff the arithmetic decoder returns the output (fixed length; variable "
+                   "length: the rows of the right-aligned buffer). ParserGadget: `get_subsequence_spec`, "
+                   "`fetch_bytes_spec` (the 31-byte chunked coarse/fine selection returns exactly the window, for "
+                   "every sequence, length and index), `ascii_to_int_spec`, `date_to_int_spec` at full strength; the "
+                   "executable mirrors are compared with the circuit's verdict and value and with the specification",
     "trusted_base": [
         "compiled Lean code of the checker run (the theorem checkEquiv_sound is about the function; its execution is trusted to the Lean compiler/runtime)",
         "the hook Regex::verif_dump prints the internal tree faithfully",
         "MockProver as the judge of satisfiability for the in-circuit half, and as the source of the assignment table / permutation that the structural comparison reads",
         "the harness reads the lookup, table columns and permutation cycles of the real constraint system correctly (harness/c19/src/trace.rs)",
+        "the harness's FxHashMap<usize, Automaton> (keys 0..n inserted in order) iterates in the same order as the clone handed to AutomatonChip::configure (offsets are nevertheless visible in the compared table)",
     ],
-    "level_text": "Kernel-checked Lean theorems: derivative matcher = denotational language (marker-unifying intersection, complement), soundness of the all-words equivalence checker (automaton vs expression, automaton vs automaton), serialization round trip, in-circuit parser layout (pinned / copied / free cells, table with sentinel rows) satisfiable iff the automaton accepts with exactly these markers, base64 arithmetic decoding with the table regenerated from the sources; translation validation of every compiled and shipped automaton on every run, over a structural corpus of all ordered pairs / triples of combinator heads",
-    "level_note": "Trusted: Lean kernel; Lean compiler/runtime for the checker run; the correspondence harness; MockProver. Regex compilation itself (determinisation, minimisation, concat/repeat constructions) is not modelled: it is validated per instance, for all words. The parser theorem is about one automaton in the table (the collection of several automata with disjoint state ranges is only exercised with one automaton); variable-length base64 and the two-entry lookup wiring of Base64Chip are compared by verdict and output only; the circuit is lenient on non-canonical trailing bits and on '+', '/' in url mode (stated as theorems, documented behaviour)",
+    "level_text": "Kernel-checked Lean theorems: derivative matcher = denotational language (marker-unifying intersection, complement), soundness of the all-words equivalence checker (automaton vs expression, automaton vs automaton), serialization inverse in both directions (round trip, canonical form, injective, prefix-free, truncations rejected), in-circuit parser layout (pinned / copied / free cells, table with sentinel rows) satisfiable iff the automaton accepts with exactly these markers - for one automaton and for any collection of automata sharing one table with the offsets of from_collection (disjoint ranges, no interference), base64 arithmetic decoding and the lookup rows of Base64Chip (rows satisfiable iff the arithmetic decoder returns the output) with table and constants regenerated from the sources, get_subsequence / fetch_bytes / ascii_to_int / date_to_int specifications; translation validation of every compiled and shipped automaton on every run, over a structural corpus of all ordered pairs / triples of combinator heads",
+    "level_note": "Trusted: Lean kernel; Lean compiler/runtime for the checker run; the correspondence harness; MockProver. Regex compilation itself (determinisation, minimisation, concat/repeat constructions) is not modelled: it is validated per instance, for all words. The collection theorems assume closed automata (all state numbers < nb_states; checked by the driver on every dumped automaton, not enforced by the deserializer) and take the iteration order of the FxHashMap from the harness. Variable-length base64: the chunk rows of the buffer are tied and proved, the Base64Vec / VectorGadget plumbing (filler, trimming to 3/4 of the length) is compared by verdict and output only. The byte decomposition and the linear combination of Base64Chip / ascii_to_int are modelled over the naturals (values < 2^24 resp. < 10^76 < p). ParserGadget is exercised with the honest prover only (a failing range check makes witness generation panic; counted as unsatisfiable), no forged witnesses. The deserializer does not reject trailing bytes (returned as rest, ignored by deserialize_unwrap) nor unsorted / duplicate entries; the circuit is lenient on non-canonical trailing bits and on '+', '/' in url mode (stated as theorems, documented behaviour)",
     "assumptions": [
         "bytes are < 256 (u8)",
     ],
